@@ -210,6 +210,33 @@ func (s *Set) M__xor__(other Object) (Object, error) {
 	return ret, nil
 }
 
+// The in-place operators mutate the set and return it, so that every
+// alias of the set sees the change (s |= t is not s = s | t)
+func (s *Set) inplace(other Object, op func(Object) (Object, error)) (Object, error) {
+	res, err := op(other)
+	if err != nil {
+		return nil, err
+	}
+	s.items = res.(*Set).items
+	return s, nil
+}
+
+func (s *Set) M__iand__(other Object) (Object, error) {
+	return s.inplace(other, s.M__and__)
+}
+
+func (s *Set) M__ior__(other Object) (Object, error) {
+	return s.inplace(other, s.M__or__)
+}
+
+func (s *Set) M__isub__(other Object) (Object, error) {
+	return s.inplace(other, s.M__sub__)
+}
+
+func (s *Set) M__ixor__(other Object) (Object, error) {
+	return s.inplace(other, s.M__xor__)
+}
+
 // Check interface is satisfied
 var _ I__len__ = (*Set)(nil)
 var _ I__bool__ = (*Set)(nil)
